@@ -773,7 +773,7 @@ def collect(config: dict[str, Any], tag: str = "") -> None:
     ..todo:: With later refactoring of the root check implicitly getting a
         pool rool state, we can refine the parameters here.
     """
-    _reuse_tool_with_param_dict(
+    return _reuse_tool_with_param_dict(
         config,
         tag,
         {
@@ -795,7 +795,7 @@ def create(config: dict[str, Any], tag: str = "") -> None:
     :param config: command line arguments and run configuration
     :param tag: extra name identifier for the test to be run
     """
-    _reuse_tool_with_param_dict(
+    return _reuse_tool_with_param_dict(
         config,
         tag,
         {
@@ -817,7 +817,7 @@ def clean(config: dict[str, Any], tag: str = "") -> None:
     :param config: command line arguments and run configuration
     :param tag: extra name identifier for the test to be run
     """
-    _reuse_tool_with_param_dict(
+    return _reuse_tool_with_param_dict(
         config,
         tag,
         {
@@ -969,7 +969,7 @@ def _reuse_tool_with_param_dict(
     tag: str,
     param_dict: dict[str, str],
     tool: Callable[[Any], Any],
-) -> None:
+) -> Any:
     """
     Reuse a previously defined tool with temporary updated parameter dictionary.
 
@@ -980,5 +980,7 @@ def _reuse_tool_with_param_dict(
     """
     setup_dict = config["param_dict"].copy()
     config["param_dict"].update(param_dict)
-    tool(config, tag=tag)
-    config["param_dict"] = setup_dict
+    try:
+        return tool(config, tag=tag)
+    finally:
+        config["param_dict"] = setup_dict
